@@ -189,6 +189,34 @@ def o_addr_of_pub(b):
         return b'<not an extended public key>'
 
 
+def _ckd(key32, chain, depth, n):
+    """BIP32 non-hardened private child: (key, chain code, depth, parent fingerprint, index)"""
+    pub = coincurve.PrivateKey(key32).public_key.format(compressed=True)
+    i = hmac.new(chain, pub + n.to_bytes(4, 'big'), hashlib.sha512).digest()
+    child = (int.from_bytes(i[:32], 'big') + int.from_bytes(key32, 'big')) % SECP_N
+    fp = hashlib.new('ripemd160', hashlib.sha256(pub).digest()).digest()[:4]
+    return child.to_bytes(32, 'big'), i[32:], depth + 1, fp, n
+
+
+def chan_key(xprv, k):
+    """extended key string of <account key>/2/k (KeyPath.CHANNEL = 2), derived with hashlib / hmac / coincurve only"""
+    v = 0
+    for c in xprv:
+        v = v * 58 + B58.index(c)
+    p = v.to_bytes(82, 'big')[:78]
+    key, chain, depth = p[46:78], p[13:45], p[4]
+    key, chain, depth, fp, n = _ckd(key, chain, depth, 2)
+    key, chain, depth, fp, n = _ckd(key, chain, depth, k)
+    return b58check_encode(XPRV + bytes([depth]) + fp + n.to_bytes(4, 'big') + chain + b'\0' + key)
+
+
+def chan_pubkey(xprv_child):
+    v = 0
+    for c in xprv_child:
+        v = v * 58 + B58.index(c)
+    return coincurve.PrivateKey(v.to_bytes(82, 'big')[46:78]).public_key.format(compressed=True)
+
+
 def o_scrypt(pw, salt, n, r, p):
     return Scrypt(salt, length=32, n=int(n), r=int(r), p=int(p), backend=default_backend()).derive(pw)
 
@@ -207,6 +235,7 @@ ORACLES = {
     'kdf': sha256d, 'E': o_E, 'D': o_D,
     'b64e': base64.b64encode, 'b64d': o_b64d, 'utf8_ok': o_utf8_ok, 'seed_ok': o_seed_ok, 'xparse': o_xparse,
     'addr_of_seed': o_addr_of_seed, 'addr_of_pub': o_addr_of_pub,
+    'chan_key': lambda x, k: chan_key(x.decode(), int(k)).encode(),
     'jstr': lambda b: json.dumps(b.decode()).encode(), 'scrypt': o_scrypt, 'zc': zlib.compress, 'zd': o_zd,
 }
 
@@ -464,9 +493,20 @@ def snapshot(w, path):
             'iv_seed': None if a.init_vectors.get('seed') is None else a.init_vectors['seed'].hex(),
             'iv_priv': None if a.init_vectors.get('private_key') is None else a.init_vectors['private_key'].hex(),
         } for a in w.accounts],
+        'chan': [channel_view(a) for a in w.accounts],
         'json': json.dumps(w.to_dict()).encode().hex(),
         'file': read_file(path),
     }
+
+
+def channel_view(a):
+    """deterministic channel keys 0 and 1 the account's manager hands out; only for an unlocked account with a key"""
+    if a.encrypted or a.private_key is None:
+        return [None, None]
+    branch = a.deterministic_channel_keys.private_key
+    if branch is None:
+        return ['MISSING', 'MISSING']
+    return [hx(branch.child(k).extended_key_string()) for k in (0, 1)]
 
 
 def account_for_model(a):
@@ -609,12 +649,19 @@ class Machine:
             if k == 'set_pref':
                 w.preferences[op['key']] = json.loads(json.dumps(op['value']))
                 return 'True'
-            if k in ('acc_encrypt', 'acc_decrypt', 'set_cipher') and op['i'] >= len(w.accounts):
+            if k in ('acc_encrypt', 'acc_decrypt', 'set_cipher', 'touch_channel') and op['i'] >= len(w.accounts):
                 return 'MODEL-BAD-SHAPE'
             if k == 'acc_encrypt':
                 return str(w.accounts[op['i']].encrypt(op['pw']))
             if k == 'acc_decrypt':
                 return str(w.accounts[op['i']].decrypt(op['pw']))
+            if k == 'touch_channel':
+                # what Ledger.subscribe_account / maybe_has_channel_key do at daemon start, locked or not
+                m = w.accounts[op['i']].deterministic_channel_keys
+                _ = m.private_key
+                self.world.loop.run_until_complete(m.ensure_cache_primed())
+                m.get_private_key_from_pubkey_hash('bXXXXXXXXXXXXXXXXXXXXXXXXXXXXXXXXX')
+                return 'True'
             if k == 'set_cipher':
                 a = w.accounts[op['i']]
                 a.seed, a.private_key_string = op['seed'], op['pks']
@@ -681,6 +728,32 @@ class Machine:
         if k in ('unlock', 'acc_decrypt'):
             idx = range(len(w.accounts)) if k == 'unlock' else [op['i']]
             if out == 'True':
+                for i in idx:
+                    a, t = w.accounts[i], self.truth[i]
+                    # a password other than the one an account was encrypted with must not open it (an account with
+                    # neither seed nor key has nothing to decrypt and opens under anything)
+                    if self.pre['enc'][i] and not a.encrypted and t is not None and (t['seed'] or t['private_key']) \
+                            and self.acc_pw[i] is not None and self.acc_pw[i] != op['pw']:
+                        bad.append((f'account {i} was encrypted with {self.acc_pw[i]!r} and is unlocked by the DIFFERENT '
+                                    f'password {op["pw"]!r} (code points {[hex(ord(c)) for c in op["pw"]][:12]} vs '
+                                    f'{[hex(ord(c)) for c in self.acc_pw[i]][:12]})',
+                                    {'finding': 'other_password_unlocks'}))
+                    if t is not None and t['private_key'] and not a.encrypted:
+                        want = chan_key(t['private_key'], 0)
+                        branch = a.deterministic_channel_keys.private_key
+                        if branch is None:
+                            bad.append((f'after a successful unlock account {i} has seed and private key back but its '
+                                        f'deterministic channel key branch (key/2) is None: channel keys are not restored',
+                                        {'finding': 'channel_keys_not_restored'}))
+                        elif branch.child(0).extended_key_string() != want:
+                            bad.append((f'after unlock the deterministic channel key 0 of account {i} is '
+                                        f'{branch.child(0).extended_key_string()} instead of {want}',
+                                        {'finding': 'channel_keys_not_restored'}))
+                        elif k == 'unlock' and self.pre['enc'][i]:
+                            got = self.world.loop.run_until_complete(a.get_channel_private_key(chan_pubkey(want)))
+                            if got is None or got.extended_key_string() != want:
+                                bad.append((f'after unlock get_channel_private_key cannot find deterministic channel key 0 of '
+                                            f'account {i}', {'finding': 'channel_keys_not_restored'}))
                 for i in idx:
                     a, t = w.accounts[i], self.truth[i]
                     if not a.encrypted:
@@ -768,6 +841,7 @@ class Machine:
         run = self.run
         self.start()
         ok = True
+        diverged = False
         for n, op in enumerate(case['ops']):
             op = dict(op)
             if op['k'] == 'tamper':
@@ -779,17 +853,26 @@ class Machine:
             self.before(op)
             out = self.impl(op)
             bad = self.after(op, out)
-            snap = snapshot(self.wallet, self.path)
-            mres = self.model.call('step', op=self.model_op(op))
             run.count('op:' + op['k'])
             run.count('out:%s:%s' % (op['k'], out))
             for what, sig in bad:
                 ok = False
                 run.violation(dict(case, failing_op=n), what, signature=sig)
+            if diverged:
+                continue      # model and code already differ on this case: only the monitor keeps watching the code
+            snap = snapshot(self.wallet, self.path)
+            mres = self.model.call('step', op=self.model_op(op))
+            for i, t in enumerate(self.truth):
+                # an account whose stored ciphertexts were overwritten may come back with ANOTHER valid key; the real manager
+                # keeps the branch it derived from the first key (it caches any non-None result): not compared there
+                if t is None and i < len(snap['chan']) and i < len(mres['snap']['chan']):
+                    if snap['chan'][i] != mres['snap']['chan'][i]:
+                        run.count('observation:channel-branch-stale-after-account-key-was-replaced-by-tampering')
+                    snap['chan'][i] = mres['snap']['chan'][i] = 'not-compared(tampered)'
             if not run.compare('C13.step.' + op['k'], dict(case, failing_op=n),
                                {'out': out, 'snap': snap}, {'out': mres['out'], 'snap': mres['snap']}):
                 ok = False
-                break
+                diverged = True
         return ok
 
     def dry_save(self, op):
@@ -979,6 +1062,10 @@ def codec_case(world, model, run, case):
         run.compare('C13.aes_encrypt', case, ct, mct)
         for value, pw2 in [(ct, pw), (ct, case['pw2'])] + [(v, pw) for v in case.get('malformed', [])]:
             r = call_impl(crypt_mod.aes_decrypt, pw2, value)
+            if 'ok' in r and pw2 != pw and value == ct and r['ok'][0] == text and text:
+                run.violation(dict(case, pw_used=pw2), f'aes_decrypt with the DIFFERENT password {pw2!r} returns the plaintext that '
+                              f'was encrypted with {pw!r}', signature={'finding': 'other_password_decrypts'})
+                return
             if 'ok' in r:
                 r = {'ok': [hx(r['ok'][0]), r['ok'][1].hex()]}
             m = model.call('aes_decrypt', pw=hx(pw2), value=hx(value))
@@ -996,6 +1083,10 @@ def codec_case(world, model, run, case):
         run.compare('C13.better_aes_encrypt', case, ct.hex(), mct.hex())
         for value, pw2 in [(ct, pw), (ct, case['pw2'])] + [(bytes.fromhex(v), pw) for v in case.get('malformed', [])]:
             r = call_impl(crypt_mod.better_aes_decrypt, pw2, value)
+            if 'ok' in r and pw2 != pw and value == ct and r['ok'] == data and data:
+                run.violation(dict(case, pw_used=pw2), f'better_aes_decrypt with the DIFFERENT password {pw2!r} returns the data '
+                              f'that was encrypted with {pw!r}', signature={'finding': 'other_password_decrypts'})
+                return
             if 'ok' in r:
                 r = {'ok': r['ok'].hex()}
             m = model.call('better_decrypt', pw=hx(pw2), value=value.hex())
@@ -1027,7 +1118,8 @@ def pack_case(world, model, run, case):
         run.compare('C13.unpack', case, {'ok': back['ok']}, {'ok': json.loads(bytes.fromhex(mu['ok']))} if 'ok' in mu else mu)
         wrong = call_impl(Wallet.unpack, case['pw2'], packed)
         if 'ok' in wrong:
-            run.violation(case, 'unpack with another password returned data', signature={'finding': 'unpack_wrong_password'})
+            run.violation(case, f'sync payload packed with {pw!r} is opened by the DIFFERENT password {case["pw2"]!r}',
+                          signature={'finding': 'unpack_wrong_password'})
             return
         run.count('unpack:wrong-password:' + wrong['err'])
         run.compare('C13.unpack.wrong', case, wrong, model.call('unpack', pw=hx(case['pw2']), data=packed.hex()))
@@ -1048,7 +1140,8 @@ def pack_case(world, model, run, case):
 # generators
 # ------------------------------------------------------------------------------------------------
 
-PASSWORDS = ['password', 'p', ' ', 'correct horse battery staple', 'pa"ss\\word\n', 'pässwörd', 'pässwörd',
+PASSWORDS = ['x\u00b2=\ufb01ve \u2167', '\uff50\uff41\uff53\uff53\uff11', 'caf\u00e9 au lait', '\u2460\u2461\u2462-secret', '\u212b\u01c6',
+             'password', 'p', ' ', 'correct horse battery staple', 'pa"ss\\word\n', 'pässwörd', 'pässwörd',
              '密码密码', 'пароль', '🔑🔐', 'pw nbsp', '0', 'x' * 257, 'Aa1!' * 300, '\t tab ', 'é', 'é']
 NAMES = [None, 'Main', 'Счёт №1', 'quote " and \\ backslash', 'tab\tnew\nline', 'emoji 😀 name', 'a' * 300, '\u007f\u0001']
 
@@ -1067,7 +1160,26 @@ def gen_password(rng):
     return ''.join(rng.choice('ab ') for _ in range(rng.choice([500, 1000, 4000])))
 
 
+def equivalent_spellings(pw):
+    """DIFFERENT strings that are unicode canonically / compatibility equivalent to pw: the four normal forms and
+    the full-width spelling of its ASCII characters"""
+    out = []
+    for form in ('NFKD', 'NFKC', 'NFD', 'NFC'):
+        out.append(unicodedata.normalize(form, pw))
+    out.append(''.join(chr(ord(c) + 0xfee0) if '!' <= c <= '~' else c for c in pw))
+    out.append(pw.replace('fi', '\ufb01').replace('1', '\u2460').replace('2', '\u00b2').replace('a', 'a\u0301').replace('a\u0301', '\u00e1', 1))
+    seen, res = {pw}, []
+    for x in out:
+        if x and x not in seen and '\x00' not in x:
+            seen.add(x)
+            res.append(x)
+    return res
+
+
 def other_password(rng, pw):
+    eq = equivalent_spellings(pw)
+    if eq and rng.random() < 0.5:
+        return rng.choice(eq)
     cands = [pw + ' ', ' ' + pw, pw + pw, pw[:-1], pw.swapcase(), pw + '́', pw[::-1], gen_password(rng), 'x']
     rng.shuffle(cands)
     for c in cands:
@@ -1189,15 +1301,18 @@ def gen_machine_case(world, rng, flavour):
         return {'k': 'save_crash', 'ts': T(), 'rnd': R(), 'n': n, 'kb': rng.choice([0, 0, 1, 17, 500]) if n == 1 else 0}
 
     if flavour == 'lifecycle':
-        ops += [{'k': 'encrypt', 'pw': pw, 'ts': T(), 'rnd': R()}, {'k': 'lock', 'rnd': R()},
-                {'k': 'unlock', 'pw': other_password(rng, pw)}, {'k': 'unlock', 'pw': pw}]
+        ops += [{'k': 'encrypt', 'pw': pw, 'ts': T(), 'rnd': R()}, {'k': 'lock', 'rnd': R()}]
+        if rng.random() < 0.3:
+            ops += [{'k': 'touch_channel', 'i': i} for i in range(nacc)]
+        ops += [{'k': 'unlock', 'pw': other_password(rng, pw)}, {'k': 'unlock', 'pw': pw}]
         if rng.random() < 0.35:
             # an account added while the wallet is locked must be sealed by the next save as well
             ops += [{'k': 'lock', 'rnd': R()}, {'k': 'add', 'spec': gen_spec(world, rng)}, {'k': 'save', 'ts': T(), 'rnd': R()},
                     {'k': 'unlock', 'pw': pw}]
             nacc += 1
         if rng.random() < 0.7:
-            ops += [{'k': 'save', 'ts': T(), 'rnd': R()}, {'k': 'reload'}, {'k': 'unlock', 'pw': other_password(rng, pw)},
+            touch = [{'k': 'touch_channel', 'i': i} for i in range(nacc)] if rng.random() < 0.7 else []
+            ops += [{'k': 'save', 'ts': T(), 'rnd': R()}, {'k': 'reload'}] + touch + [{'k': 'unlock', 'pw': other_password(rng, pw)},
                     {'k': 'unlock', 'pw': pw}, {'k': 'save', 'ts': T(), 'rnd': R()}]
         if rng.random() < 0.5:
             ops += [{'k': 'decrypt', 'ts': T(), 'rnd': R()}, {'k': 'reload'}]
@@ -1244,7 +1359,7 @@ def gen_machine_case(world, rng, flavour):
         for _ in range(rng.randrange(1, 5)):
             ops.append(rng.choice([gen_pref(rng), {'k': 'unlock', 'pw': pw}, {'k': 'lock', 'rnd': R()}, crash(), crash(),
                                    {'k': 'decrypt', 'ts': T(), 'rnd': R()}]))
-        ops += [crash(), {'k': 'unlock', 'pw': pw}]
+        ops += [crash()] + [{'k': 'touch_channel', 'i': i} for i in range(nacc) if rng.random() < 0.5] + [{'k': 'unlock', 'pw': pw}]
     else:  # walk
         cur = pw
         for _ in range(rng.randrange(4, 13)):
@@ -1271,6 +1386,8 @@ def gen_machine_case(world, rng, flavour):
                 nacc += 1
             if nacc and rng.random() < 0.06:
                 ops.append({'k': 'acc_encrypt', 'i': rng.randrange(nacc), 'pw': cur, 'rnd': R()})
+            if nacc and rng.random() < 0.12:
+                ops.append({'k': 'touch_channel', 'i': rng.randrange(nacc)})
     return {'kind': 'machine', 'flavour': flavour, 'ops': ops}
 
 
@@ -1351,7 +1468,10 @@ def main(run):
                 'over all 12 operations (incl. blank password, truthy/falsy encrypt-on-disk preference values, nested '
                 'preference values), crash (process SIGKILLed before file operation 0..9 of a save or inside its write, then '
                 'restart), tamper (13 corruptions of the stored ciphertexts), mixed passwords per account, seeds outside '
-                'the English word list; passwords: ASCII, NFC/NFD, CJK, emoji, NBSP, 1 char, 257..4000 chars. storage cases: '
+                'the English word list, reading the deterministic channel key manager while locked / after a restart; '
+                'passwords: ASCII, NFC/NFD, CJK, emoji, NBSP, 1 char, 257..4000 chars, compatibility characters (superscript, '
+                'ligature, full-width, circled, roman numeral); wrong passwords: prefix/suffix/case/reversal mutations and the '
+                'unicode-equivalent spellings (NFKD/NFKC/NFD/NFC/full-width) of the right one. storage cases: '
                 'file sizes around the 8192-byte buffer up to 200 kB, old file absent/empty/present with 5 modes, a kill '
                 'before every one of the operations and at 3 byte offsets inside the write. codec cases: plaintext lengths '
                 'around the AES block, 13 malformed values each. distinct = distinct case dict; non-trivial = more than one '
